@@ -25,8 +25,10 @@ TRUSTED = [
     "decimal printing of indices: Coq's Numbers.DecimalString / DecimalNat (nat_to_string) vs Python's str.format",
 ]
 ASSUMES = [
-    "the solver's assignment of multipliers to Constraint objects (eval_dual) is outside C17: `dual p` is an arbitrary "
-    "function of the position p; on the implementation the multipliers are injected tags",
+    "the solver's assignment of multipliers to Constraint objects (eval_dual) is outside C17: `dual p` is an ARBITRARY "
+    "rational function of the position p (any sign: equalities have sign-free multipliers, the accessor is the "
+    "identity on what is stored); on the implementation the multipliers are injected tags of both signs, plus two "
+    "solved instances",
     "name injectivity is stated for unnamed points (Point_<i>); user-given names may collide",
 ]
 
@@ -41,14 +43,73 @@ def _direct(meta, func):
     return out
 
 
+def solved_instances():
+    """two really solved PEPs (cvxpy / SCS) whose class conditions are EQUALITIES with sign-free multipliers:
+    gradient descent on g(Mx), M a SymmetricLinearOperator ("symmetric_linearity") resp. a LinearOperator with its
+    transpose ("adjoint").  After the solve, every entry of get_class_constraints_duals() must be exactly the
+    _dual_variable_value the wrapper stored on the Constraint object sitting at that pair (negative ones
+    included), 0 where the table holds 0.  Returns (problems, info)."""
+    from PEPit import PEP, Point
+    from PEPit.functions import SmoothStronglyConvexFunction
+    from PEPit.operators import SymmetricLinearOperator, LinearOperator
+    problems, info = [], {}
+    for kind in ("SymmetricLinearOperator", "LinearOperator"):
+        pep = PEP()
+        g = pep.declare_function(SmoothStronglyConvexFunction, mu=0.1, L=1.)
+        if kind == "SymmetricLinearOperator":
+            A = pep.declare_function(SymmetricLinearOperator, mu=0.1, L=1.)
+            At = A
+        else:
+            A = pep.declare_function(LinearOperator, L=1.)
+            At = A.T
+        x0 = pep.set_initial_point()
+        xs = Point()
+        ys = A.gradient(xs)
+        us, fs = g.oracle(ys)
+        vs = At.gradient(us)
+        pep.add_constraint(vs ** 2 == 0)
+        pep.set_initial_condition((x0 - xs) ** 2 <= 1)
+        y0 = A.gradient(x0)
+        u0 = g.gradient(y0)
+        v0 = At.gradient(u0)
+        x1 = x0 - v0
+        y1 = A.gradient(x1)
+        pep.set_performance_metric(g(y1) - fs)
+        try:
+            tau = pep.solve(verbose=0)
+        except Exception as e:
+            info[kind] = "solve raised %r" % (e,)
+            continue
+        if tau is None:
+            info[kind] = "no solution"
+            continue
+        neg = 0
+        for name, func in ((kind, A), ("SmoothStronglyConvexFunction", g)):
+            for d in S.check_tables(name, func, injected=False):
+                problems.append(dict(kind="C17-solved-" + d["kind"], instance="gradient descent on g(Mx), M " + kind,
+                                     function=name, detail=d))
+                break
+            for c in func.list_of_class_constraints:
+                if c.equality_or_inequality == "equality" and c._dual_variable_value is not None \
+                        and c._dual_variable_value < -1e-3:
+                    neg += 1
+        info[kind] = "value %.4f, %d equality multipliers below -1e-3" % (tau, neg)
+    return problems, info
+
+
 def correspondence(tier, seed, corpus):
     st = S.run_stream("c17_classgen", tier, seed + 17, on_case=_direct)
     # regression case of the repaired F-C17b (reported as a violation if it ever fails again)
     reg = S.regression_linear_adjoint()
-    st["problems"] = (reg + st["problems"])[:5]
-    st["n_problems"] += len(reg)
-    st["evaluations"] += 1
+    solved, info = solved_instances()
+    st["problems"] = (reg + solved + st["problems"])[:5]
+    st["n_problems"] += len(reg) + len(solved)
+    st["evaluations"] += 1 + len(info)
     st["distribution"]["regression_cases"] = {"F-C17b (LinearOperator adjoint equalities named + tabulated)": "fails" if reg else "passes"}
+    st["distribution"]["solved_instances"] = info
+    st["rule"] += ("; injected dual values are -1/4, 3/4, -5/4, ... by position (both signs, distinct, non-zero) and "
+                   "each dual-table entry is compared with the value stored on the object at that pair; plus two solved "
+                   "instances with equality tables (negative multipliers)")
     return [st]
 
 
@@ -99,6 +160,8 @@ def replay(payload):
     case = payload.get("case")
     if payload.get("kind") == "regression-F-C17b":
         return bool(S.regression_linear_adjoint())
+    if payload.get("kind", "").startswith("C17-solved-"):
+        return bool(solved_instances()[0])
     if payload.get("kind") == "implementation-raised" and case:
         try:
             S.rebuild(case)
